@@ -31,6 +31,19 @@ CHECKS["C12"] = dict(engine="tokenize", design="4 C12",
          "Every terminal configuration of the N=4 instance is replayed through a real Tokenizer with one-off extractors, and citation-dense generated documents "
          "are run through the three shipped tokenizers; TLC judges every recorded token stream with the C12 monitor clauses (concat = text, offsets index own text, "
          "increasing, index list exact) and checks it equals the model's Run() on the recorded candidates."), note=TOK_NOTE)
+ANN_NOTE = ("Trusted: TLC 1.8 + Json module; token concretisation (digits for plain text, so the minimal diff is unique) in harness/drv_annotate.py; "
+            "lxml as well-formedness judge (named by the property); the two diff engines are only assumed to return minimal scripts, which conformance checks.")
+_ann = ("Annotate.tla (one action per iteration of the annotation loop: translate through SpanUpdater, clip, balance test, style-tag repair, wrap, emit) "
+        "and SpanUpdater.tla are model-checked by TLC for every target text of <= 4 tokens (text, inserted whitespace, <i>, <p>, (<b>)), with and without a source, "
+        "3 modes, every sorted list of <= 2 spans, and for every well-formed markup of <= 8 tokens; every terminal configuration of the emit instances is replayed "
+        "through the real annotate_citations with both diff engines, plus long multi-line forced-alignment documents and arbitrary string pairs; "
+        "TLC judges every recorded output with the monitor clauses and compares it with the model. ")
+CHECKS["C09"] = dict(engine="annotate", design="4 C09", technique="TLA+ model checking of Annotate.tla (invariant Additive at every loop step) + configuration replay + TLC trace validation",
+   text=_ann + "C09 clause: the output with the inserted strings removed equals the target text.", note=ANN_NOTE)
+CHECKS["C10"] = dict(engine="annotate", design="4 C10", technique="TLA+ model checking of Annotate.tla/SpanUpdater.tla (ExactEnclosure, Monotone, InRange) + configuration replay + TLC trace validation",
+   text=_ann + "C10 clauses: exact enclosure under forced alignment, annotations in order, translation monotone and in range for arbitrary string pairs.", note=ANN_NOTE)
+CHECKS["C11"] = dict(engine="annotate", design="4 C11", technique="TLA+ model checking of Annotate.tla (WellFormedOut, WrapKeepsAll) + replay of all well-formed markups <= 8 tokens + TLC trace validation with lxml's verdict",
+   text=_ann + "C11 clauses (premise: source well-formed, plain = its text content): output well-formed per lxml, text content unchanged, wrap keeps every annotation.", note=ANN_NOTE)
 NA_REASON = "check not built yet (work in progress; see DESIGN.md section 10 build order)"
 checks = []
 for p in props:
@@ -51,7 +64,9 @@ m = {"version": 1,
  "engines": [{"name": "resolve", "path": "spec/Resolve.tla spec/MC_Resolve.tla spec/Trace_Resolve.tla harness/chk_resolve.py harness/drv_resolve.py",
               "serves_properties": ["C06", "C07", "C08"], "kind_free_text": "TLA+ spec, TLC model checking, transition replay, TLC trace validation"},
              {"name": "tokenize", "path": "spec/Tokenize.tla spec/MC_Tokenize.tla spec/Trace_Tokenize.tla harness/chk_tokenize.py harness/drv_tokenize.py harness/gendocs.py",
-              "serves_properties": ["C12"], "kind_free_text": "TLA+ spec, TLC model checking, configuration replay, TLC trace validation"}],
+              "serves_properties": ["C12"], "kind_free_text": "TLA+ spec, TLC model checking, configuration replay, TLC trace validation"},
+             {"name": "annotate", "path": "spec/Annotate.tla spec/SpanUpdater.tla spec/MC_Annotate.tla spec/MC_SpanUpdater.tla spec/Trace_Annotate.tla spec/Trace_SpanUpdater.tla harness/chk_annotate.py harness/drv_annotate.py",
+              "serves_properties": ["C09", "C10", "C11"], "kind_free_text": "TLA+ spec, TLC model checking, configuration replay, TLC trace validation"}],
  "checks": checks,
  "notes": "See DESIGN.md. Exit codes: 0 held, 1 VIOLATION, 2 machinery failure.",
  "not_applicable": [{"property_id": p["id"], "reason": NA_REASON} for p in props if p["id"] not in CHECKS]}
